@@ -24,9 +24,45 @@ import (
 
 const (
 	verifDir   = "/verif"
-	harnessDir = "/verif/harness"
+	harnessSrc = "/verif/harness"
 	propsPkg   = "github.com/ElrondNetwork/elrond-vm-common/zz_verif/props"
 )
+
+// harnessDir is a private snapshot of /verif/harness taken when a check starts: the engine's
+// load and the native build at the end of the run then see the same harness sources even if
+// the files are edited meanwhile.
+var harnessDir = harnessSrc
+
+func snapshotHarness() (cleanup func()) {
+	dir, err := os.MkdirTemp("", "gosmt-harness-")
+	if err != nil {
+		return func() {}
+	}
+	ok := true
+	filepath.Walk(harnessSrc, func(p string, info os.FileInfo, err error) error {
+		if err != nil || info.IsDir() || !strings.HasSuffix(p, ".go") {
+			return nil
+		}
+		rel, _ := filepath.Rel(harnessSrc, p)
+		b, rerr := os.ReadFile(p)
+		if rerr != nil {
+			ok = false
+			return nil
+		}
+		dst := filepath.Join(dir, rel)
+		os.MkdirAll(filepath.Dir(dst), 0o755)
+		if os.WriteFile(dst, b, 0o644) != nil {
+			ok = false
+		}
+		return nil
+	})
+	if !ok {
+		os.RemoveAll(dir)
+		return func() {}
+	}
+	harnessDir = dir
+	return func() { os.RemoveAll(dir) }
+}
 
 // repoDir is /repo; GOSMT_REPO points the tool at a scratch worktree for experiments with seeded
 // changes (registered commands never set it).
@@ -185,6 +221,7 @@ type checkOpts struct {
 	verbose  bool
 	budget   time.Duration
 	dump     string
+	noSum    bool
 }
 
 func parseCheck(args []string) checkOpts {
@@ -218,6 +255,8 @@ func parseCheck(args []string) checkOpts {
 			o.budget, _ = time.ParseDuration(nextArg())
 		case "--dump":
 			o.dump = nextArg()
+		case "--no-summaries":
+			o.noSum = true
 		case "-v":
 			o.verbose = true
 		default:
@@ -241,6 +280,7 @@ func cmdCheck(args []string) int {
 	}
 	start := time.Now()
 	thorough := o.tier == "thorough"
+	defer snapshotHarness()()
 	prog, props, err := load()
 	if err != nil {
 		fmt.Fprintln(os.Stderr, "INCONCLUSIVE:", err)
@@ -264,7 +304,7 @@ func cmdCheck(args []string) int {
 		cfg := &sym.Config{
 			Prog: prog, Harness: h.Name(), Entry: h, Thorough: thorough, Known: known,
 			SolverName: o.solver, WantSample: true, MaxPaths: o.maxPaths, Workers: o.workers,
-			ValidateMax: map[bool]int{false: 24, true: 200}[thorough], DumpFile: o.dump,
+			ValidateMax: map[bool]int{false: 24, true: 200}[thorough], DumpFile: o.dump, NoSummaries: o.noSum,
 		}
 		if o.budget > 0 {
 			cfg.Deadline = time.Now().Add(o.budget)
